@@ -205,14 +205,15 @@ def rule_r2(prog, res) -> None:
                 n_sites += 1
                 res.touch(m)
 
-                def is_exit_test(cfg_, t) -> bool:
-                    if t.kind != "test" or not any(isinstance(a, ast.Attribute) and a.attr == "exitcode" for a in ast.walk(t.expr)):
+                def is_exit_test(cfg_, t, fn_node) -> bool:
+                    # the tested value may be `.exitcode` itself or a local that was read from it
+                    if t.kind != "test" or not depends_on(fn_node, t.expr, lambda a: isinstance(a, ast.Attribute) and a.attr == "exitcode"):
                         return False
                     return any(raise_dominated_by(cfg_, b) for b in branch_nodes_of(cfg_, t).values())
 
                 def escapes(fn: FuncInfo, start, env) -> bool:
                     c = cfg_of(fn.node)
-                    reach = pruned_reach(c, start, env, avoid=lambda t, c=c: is_exit_test(c, t), defs=single_def_resolver(fn.node))
+                    reach = pruned_reach(c, start, env, avoid=lambda t, c=c: is_exit_test(c, t, fn.node), defs=single_def_resolver(fn.node))
                     return c.exit.id in reach
 
                 ok = not escapes(m, n, {})
@@ -227,6 +228,14 @@ def rule_r2(prog, res) -> None:
                                 if m in tg.funcs() and m2 is not m:
                                     callers.append((m2, n2))
                     relevant = [(m2, n2) for m2, n2 in callers if m2.name == "__exit__"] or callers
+
+                    def live(m2, n2) -> bool:
+                        # a call site inside the exception arm of __exit__ is not part of the normal continuation
+                        c2 = cfg_of(m2.node)
+                        env2 = exc_env(m2, False) if m2.name == "__exit__" else {}
+                        return n2.id in pruned_reach(c2, c2.entry, env2, defs=single_def_resolver(m2.node))
+
+                    relevant = [(m2, n2) for m2, n2 in relevant if live(m2, n2)]
                     if relevant and all(not escapes(m2, n2, exc_env(m2, False) if m2.name == "__exit__" else {}) for m2, n2 in relevant):
                         ok = True
                 if ok:
@@ -495,94 +504,100 @@ def rule_r5(prog, res) -> None:
 
 
 def rule_r6(prog, res) -> None:
-    """patch centres are paired with patches by id, or positionally behind a raising guard"""
+    """patch centres are paired with patches by id, or positionally behind a raising guard.
+    Decided on the substituted iterable of every path that reaches the parallel Patch construction
+    (helpers of the same module are looked through)."""
+    from .. import symx
+
     Patch = prog.find_class("Patch")
     found = 0
     for fi in prog.funcs:
+        sites = []
         for call in calls_in(fi):
             tg = prog.resolve_call(fi, call)
             if not any(t.name == "iter_unordered" for t in tg.funcs()):
                 continue
             if not call.args or not any(t[0] == "type" and t[1] is Patch for t in prog.func_env(fi).type_of(call.args[0])):
                 continue
-            found += 1
-            res.touch(fi)
-            it = call.args[1] if len(call.args) > 1 else kwarg(call, "iterable")
-            # definitions of the iterable that zip a centre source
-            defs = []
-            if isinstance(it, ast.Name):
-                defs = [v for v in all_def_values(fi.node, it.id) if v is not None]
-            else:
-                defs = [it]
-            cfg = cfg_of(fi.node)
-            centre_params = [p for p in fi.param_names() if "center" in p or "centre" in p]
-            for d in defs:
-                if not (isinstance(d, ast.Call) and isinstance(d.func, ast.Name) and d.func.id == "zip" and len(d.args) >= 2):
-                    if isinstance(d, ast.Call) and isinstance(d.func, ast.Name) and d.func.id == "zip":
-                        res.ok("C09.R6", res.site(fi, norm_stmt(d)), "no centre operand on this arm", nontrivial=False)
+            sites.append(call)
+        if not sites:
+            continue
+        found += len(sites)
+        res.touch(fi)
+        centre_params = [p for p in fi.param_names() if "center" in p or "centre" in p]
+        is_cen = lambda x: isinstance(x, ast.Name) and x.id in centre_params  # noqa: E731
+        paths = symx.explore(prog, fi, inline=symx.inline_private_helpers(prog, public={"iter_unordered"}))
+        seen = 0
+        for p in paths:
+            for ev in p.calls("iter_unordered"):
+                if ev.node not in sites:
                     continue
-                centre_ops = [a for a in d.args if depends_on(fi.node, a, lambda x: isinstance(x, ast.Name) and x.id in centre_params)]
+                seen += 1
+                it = ev.expr.args[1] if len(ev.expr.args) > 1 else kwarg(ev.expr, "iterable")
+                if not (isinstance(it, ast.Call) and isinstance(it.func, ast.Name) and it.func.id == "zip"):
+                    if it is not None and symx.mentions(it, is_cen):
+                        raise AnalysisError(f"C09.R6: centres reach the Patch construction in {fi.qualname} through an unrecognised iterable {unparse(it)[:80]}")
+                    continue
+                centre_ops = [a for a in it.args if symx.mentions(a, is_cen)]
                 if not centre_ops:
+                    res.ok("C09.R6", res.site(fi, "no-centres"), "no centre operand on this path", nontrivial=False)
                     continue
-                keyed = False
-                for a in centre_ops:
-                    # keyed selection: comprehension / generator subscripting the centres with an id-derived index
-                    for x in ast.walk(a):
-                        if isinstance(x, ast.Subscript) and depends_on(fi.node, x.value, lambda y: isinstance(y, ast.Name) and y.id in centre_params):
-                            if not isinstance(x.slice, ast.Slice):
-                                keyed = True
-                    if isinstance(a, ast.Name):
-                        for v in all_def_values(fi.node, a.id):
-                            if v is None:
-                                continue
-                            for x in ast.walk(v):
-                                if isinstance(x, (ast.ListComp, ast.GeneratorExp)) and any(isinstance(y, ast.Subscript) and not isinstance(y.slice, ast.Slice) for y in ast.walk(x.elt)):
-                                    keyed = True
+                others = [a for a in it.args if a not in centre_ops]
+                keyed = any(
+                    isinstance(x, ast.Subscript) and not isinstance(x.slice, ast.Slice) and symx.mentions(x.value, is_cen) and not isinstance(x.slice, ast.Constant)
+                    for a in centre_ops
+                    for x in ast.walk(a)
+                )
                 if keyed:
-                    res.ok("C09.R6", res.site(fi, norm_stmt(d)), "centre selected by a patch-id derived subscript")
+                    res.ok("C09.R6", res.site(fi, "keyed"), "centre selected by a patch-id derived subscript")
                     continue
-                # positional pairing: needs a dominating raising guard relating the id list to the centres
+                # positional pairing: a raising guard must accept exactly ids == 0..N-1 for N centres (folded on test vectors)
                 guarded = False
-                id_names = {n for n in ("patch_ids",)} | {x.id for x in ast.walk(fi.node) if isinstance(x, ast.Name) and "ids" in x.id}
-                for n in cfg.node_containing(d):
-                    for dn in cfg.dom_chain(n):
-                        if dn.kind != "branch":
-                            continue
-                        t = dn.test.expr
-                        if mentions_name(t, id_names) and (mentions_name(t, centre_params) or "range" in unparse(t) or "len(" in unparse(t)):
-                            other = branch_nodes_of(cfg, dn.test).get(not dn.polarity)
-                            if other is not None and raise_dominated_by(cfg, other):
-                                # the guard must accept exactly ids == 0..N-1 for N centres (folded on test vectors)
-                                raises_when = not dn.polarity
-                                vectors = [([0, 1, 2], 3, False), ([0, 1, 3], 4, True), ([0, 2], 3, True), ([1, 2, 3], 3, True), ([0, 1], 3, True)]
-                                sound = True
-                                for ids, ncen, should_raise in vectors:
-                                    env = {nm: ids for nm in id_names}
-                                    for cp in centre_params:
-                                        env[cp] = [object()] * ncen
-                                    try:
-                                        v = bool(ceval(t, env))
-                                    except Unknown:
-                                        sound = None
-                                        break
-                                    if (v == raises_when) != should_raise:
-                                        sound = False
-                                        break
-                                if sound is None:
-                                    raise AnalysisError(f"C09.R6: cannot evaluate the centre/id guard {unparse(t)}")
-                                if sound:
-                                    guarded = True
+                undecidable = None
+                for t, pol, node in symx.raising_guards(paths, p):
+                    if not symx.mentions(t, is_cen):
+                        continue
+                    ttxt = unparse(t)
+                    cands = sorted({unparse(x) for o in others for x in ast.walk(o) if isinstance(x, ast.expr) and not isinstance(x, ast.Constant)}, key=len, reverse=True)
+                    ids_txt = next((c for c in cands if c in ttxt and not any(cp in c for cp in centre_params)), None)
+                    if ids_txt is None:
+                        continue
+                    cen_txts = sorted({unparse(a) for a in centre_ops} | set(centre_params), key=len, reverse=True)
+                    raises_when = not pol
+                    vectors = [([0, 1, 2], 3, False), ([0, 1, 3], 4, True), ([0, 2], 3, True), ([1, 2, 3], 3, True), ([0, 1], 3, True)]
+                    sound = True
+                    for ids, ncen, should_raise in vectors:
+                        env = {ids_txt: ids}
+                        for c in cen_txts:
+                            env[c] = [object()] * ncen
+                        try:
+                            v = bool(ceval(t, env))
+                        except Unknown:
+                            sound = None
+                            undecidable = ttxt
+                            break
+                        if (v == raises_when) != should_raise:
+                            sound = False
+                            break
+                    if sound:
+                        guarded = True
+                        break
                 if guarded:
-                    res.ok("C09.R6", res.site(fi, norm_stmt(d)), "positional pairing is dominated by a raising id-list guard")
+                    res.ok("C09.R6", res.site(fi, "guarded"), "positional pairing happens only behind a raising id-list guard that accepts exactly ids 0..N-1")
+                elif undecidable is not None:
+                    raise AnalysisError(f"C09.R6: cannot evaluate the centre/id guard {undecidable[:100]}")
                 else:
                     res.violation(
                         "C09.R6",
                         fi,
-                        d,
+                        ev.node,
                         "patch centres are zipped positionally with the patch directories found on disk: a centre that attracted no "
                         "object shifts every later centre onto the wrong patch (and the missing patch is not reported)",
                         key_extra="zip-centres-positional",
                     )
+                    return
+        if seen == 0:
+            raise AnalysisError(f"C09.R6: no path of {fi.qualname} reaches the Patch construction")
     if found == 0:
         raise AnalysisError("C09.R6: no parallel Patch construction found (anchor vanished)")
 
